@@ -37,8 +37,8 @@ func init() {
 			"strace -f observes every thread of the Go binary; 'when=K' counts per thread, so the log is consulted to see which call was actually failed",
 		},
 		floorQuick: 300, floorThorough: 3000,
-		serial:     false,
-		run:        runC16,
+		serial: false,
+		run:    runC16,
 	})
 }
 
